@@ -9,7 +9,8 @@ Require Import KV.Model.Prelude KV.Model.Condensed KV.Model.Active KV.Model.Dend
   KV.Model.Mst KV.Model.Linkage KV.Model.History
   KV.Proofs.ShapeCheck KV.Proofs.ActiveRefine KV.Proofs.PrimitiveGreedy KV.Proofs.PrimitiveWF KV.Proofs.UpdateSpec
   KV.Proofs.SortProofs KV.Proofs.OrderOnly KV.Proofs.RelabelWF KV.Proofs.PrimThreshold KV.Proofs.MstPrim KV.Proofs.MstCuts
-  KV.Proofs.LWInvariant KV.Model.Chain KV.Proofs.MstWF KV.Proofs.MstTotal KV.Proofs.ChainIter KV.Proofs.ChainInstances.
+  KV.Proofs.LWInvariant KV.Model.Chain KV.Proofs.MstWF KV.Proofs.MstTotal KV.Proofs.ChainIter KV.Proofs.ChainInstances
+  KV.Model.Generic KV.Model.Primitive KV.Proofs.PrimitiveTotal KV.Proofs.GenericInv KV.Proofs.GenericInstances.
 From Coq Require Import Relations.
 
 Set Implicit Arguments.
@@ -212,6 +213,50 @@ Proof.
   - rewrite Hnan in Hoo. cbn [out_of map_out] in Hoo.
     destruct (run_with F p a meth s d m n) as [[[s' d'] m']| |]; cbn [out_of] in Hoo; try discriminate.
     right. inversion Hoo. reflexivity.
+Qed.
+
+(* all five entry points (generic needs `==` reflexive inside `ok` and every
+   entry strictly below the max_value sentinel) *)
+Hypothesis eqb_refl_ok : forall a, ok a = true -> f_eqb F a a = true.
+
+Lemma FS_eqb_refl a : f_eqb FS a a = true.
+Proof. exact (@eqb_refl_ok (g a) (proj2_sig a)). Qed.
+
+Theorem selection_total_wf_carrier_all (p : profile) (a : algo) (meth : method) s d (m : list T) (n : N) :
+  meth = Single \/ meth = Complete ->
+  (n < two32)%N -> wf_shape n (N.of_nat (length m)) ->
+  Forall (fun v => ok v = true) m ->
+  Forall (fun v => f_ltb F v (f_max F) = true) m ->
+  (exists s' d' m', run_with F p a meth s d m n = Ok (s', d', m') /\ wf_dend (d_obs d') (d_steps d'))
+  \/ run_with F p a meth s d m n = Panic PNaN.
+Proof.
+  intros Hmeth Hn Hshape Hok Hmax.
+  destruct a; try (apply selection_total_wf_carrier; auto; fail).
+  - (* generic *)
+    destruct (lift_list Hok) as (m1 & Hm1).
+    pose proof (@order_only sub T g (fun _ => True) FS F p
+                  (fun x y _ _ => eq_refl) (fun x y _ _ => eq_refl) (conj I eq_refl) (conj I eq_refl)
+                  AGeneric meth m1 n (st_new sub) (d_new sub 0) s d Hmeth
+                  ltac:(apply Forall_forall; intros; exact I)) as Hoo.
+    rewrite Hm1 in Hoo.
+    assert (Hshape1 : wf_shape n (N.of_nat (length m1))) by (rewrite <- Hm1, map_length in Hshape; exact Hshape).
+    assert (Hmax1 : Forall (fun v => f_ltb FS v (f_max FS) = true) m1).
+    { rewrite Forall_forall in Hmax |- *. intros v Hv. apply (Hmax (g v)). rewrite <- Hm1. apply in_map. exact Hv. }
+    cbn [run_with] in Hoo |- *.
+    destruct (@generic_selection_total_wf sub FS p FS_irrefl FS_trans FS_negtrans FS_eqb_refl meth (st_new sub) (d_new sub 0) m1 n Hmeth Hn Hshape1 Hmax1)
+      as [(s1 & d1 & mm1 & Hrun1 & Hwf1)|Hnan].
+    + rewrite Hrun1 in Hoo. cbn [out_of map_out] in Hoo.
+      destruct (generic_with (kops_of F meth) p meth s d m n) as [[[s' d'] m']| |]; cbn [out_of] in Hoo; try discriminate.
+      injection Hoo as Hd Hm. left. exists s', d', m'. split; [reflexivity|]. rewrite Hd. unfold map_dend. cbn [d_obs d_steps].
+      apply wf_dend_map_step. exact Hwf1.
+    + rewrite Hnan in Hoo. cbn [out_of map_out] in Hoo.
+      destruct (generic_with (kops_of F meth) p meth s d m n) as [[[s' d'] m']| |]; cbn [out_of] in Hoo; try discriminate.
+      right. inversion Hoo. reflexivity.
+  - (* primitive *)
+    destruct (@primitive_total T (kops_of F meth) p ltb_trans ltb_irrefl meth s d m n Hn Hshape) as [[[[s' d'] m'] Hrun]|Hnan].
+    + left. exists s', d', m'. split; [exact Hrun|].
+      exact (@PrimitiveWF.primitive_wf T (kops_of F meth) p ltb_trans ltb_irrefl meth s d m n s' d' m' Hrun).
+    + right. exact Hnan.
 Qed.
 
 End Sub.
